@@ -168,6 +168,111 @@ Definition prio_resp (action other : resp_action) : resp_action :=
 Definition fold_resp (l : list resp_action) : resp_action :=
   fold_left prio_resp l PNoOp.
 
+(* ------------------------------------------------------------------ sessions
+   A session = the producers (processors / remedies) with the action VALUE each
+   of them stands for when the session starts (the store), and a sequence of
+   transactions, each naming the producers that fire, in order.  Producers keep
+   objects across transactions (the API-key plugin caches one header map per
+   endpoint and hands that map out in a fresh ModifyRequestAction every time).
+
+   Value semantics (what the property demands): a fold READS the producers'
+   values and never writes them, so a transaction's result is a function of
+   that transaction's action values.  [txn_req] returns the store untouched:
+   in this model aliasing cannot occur; the harness checks the implementation
+   against exactly this (shared header maps / remove lists in fresh structs). *)
+
+Definition resolve_req (st : list req_action) (ids : list nat) : list req_action :=
+  map (fun i => nth i st RNoOp) ids.
+Definition resolve_resp (st : list resp_action) (ids : list nat) : list resp_action :=
+  map (fun i => nth i st PNoOp) ids.
+
+Definition txn_req (st : list req_action) (ids : list nat) : req_action * list req_action :=
+  (fold_req (resolve_req st ids), st).
+Definition txn_resp (st : list resp_action) (ids : list nat) : resp_action * list resp_action :=
+  (fold_resp (resolve_resp st ids), st).
+
+(* results of the transactions in order, and the store at the end *)
+Fixpoint session_req (st : list req_action) (ts : list (list nat))
+  : list req_action * list req_action :=
+  match ts with
+  | [] => ([], st)
+  | t :: r =>
+      let '(res, st1) := txn_req st t in
+      let '(rs, st2) := session_req st1 r in
+      (res :: rs, st2)
+  end.
+
+Fixpoint session_resp (st : list resp_action) (ts : list (list nat))
+  : list resp_action * list resp_action :=
+  match ts with
+  | [] => ([], st)
+  | t :: r =>
+      let '(res, st1) := txn_resp st t in
+      let '(rs, st2) := session_resp st1 r in
+      (res :: rs, st2)
+  end.
+
+(* Struct reuse (a producer handing the very same action STRUCT to several
+   transactions; no producer of the tree does, every one builds a new struct
+   per call).  Here the code, as it is, is not a function of values: the
+   accumulator of the fold IS the first non-no-op input struct
+   (NoOp.ReqPrioritize(other) returns other) until a merge allocates a new
+   one, and ModifyRequest x ModifyHeaders assigns the accumulated struct's
+   HeadersToSet (the merged map is new; the struct is updated in place).
+   [run_ip] is the fold over (producer id, value) pairs that also tracks which
+   producer's struct the accumulator is ([own]) and the writes to producers'
+   structs, in order.  The values are read when the fold starts: a struct
+   occurring twice in ONE sequence is not modelled (the harness never does).
+   The response table has no in-place cell. *)
+Fixpoint run_ip (l : list (nat * req_action)) (a : req_action) (own : option nat)
+                (w : list (nat * req_action)) : req_action * list (nat * req_action) :=
+  match l with
+  | [] => (a, w)
+  | (j, o) :: r =>
+      match a, o with
+      | RNoOp, _ => run_ip r o (Some j) w
+      | REarly _ _ _, _ => run_ip r a own w
+      | _, RNoOp => run_ip r a own w
+      | _, REarly _ _ _ => run_ip r o (Some j) w
+      | RModRequest _ _ _ _ _, RModHeaders _ =>
+          let a' := prio_req a o in
+          run_ip r a' own (match own with Some i => w ++ [(i, a')] | None => w end)
+      | _, _ => run_ip r (prio_req a o) None w
+      end
+  end.
+
+Fixpoint set_nth {A : Type} (i : nat) (v : A) (l : list A) : list A :=
+  match l, i with
+  | [], _ => []
+  | _ :: r, O => v :: r
+  | x :: r, S i' => x :: set_nth i' v r
+  end.
+
+Definition apply_writes (w : list (nat * req_action)) (st : list req_action) : list req_action :=
+  fold_left (fun s iv => set_nth (fst iv) (snd iv) s) w st.
+
+Definition txn_req_ip (st : list req_action) (ids : list nat) : req_action * list req_action :=
+  let '(res, w) := run_ip (combine ids (resolve_req st ids)) RNoOp None [] in
+  (res, apply_writes w st).
+
+Fixpoint session_req_ip (st : list req_action) (ts : list (list nat))
+  : list req_action * list req_action :=
+  match ts with
+  | [] => ([], st)
+  | t :: r =>
+      let '(res, st1) := txn_req_ip st t in
+      let '(rs, st2) := session_req_ip st1 r in
+      (res :: rs, st2)
+  end.
+
+(* the one situation in which a fold writes a struct it was given: dropping
+   the no-ops, the sequence starts ModifyRequest, ModifyHeaders *)
+Definition inplace_fires (l : list req_action) : bool :=
+  match filter (fun a => negb (is_req_noop a)) l with
+  | RModRequest _ _ _ _ _ :: RModHeaders _ :: _ => true
+  | _ => false
+  end.
+
 (* ------------------------------------------------------------------ SPOE encoding *)
 
 Inductive scope := ScProcess | ScSession | ScTxn | ScReq | ScRes.
@@ -481,3 +586,52 @@ Definition run_legacy_req (k : case_legacy_req) : option (list var) :=
 Definition run_legacy_resp (k : case_legacy_resp) : option (list var) :=
   let '(l, ov) := k in
   if vars_eqb (spoe_resp l) ov then None else Some (spoe_resp l).
+
+(* sessions (suites sess_req / sess_resp).  A case: struct reuse (true) or
+   header maps / remove lists shared between fresh structs (false); the store
+   when the session starts; per transaction the producers that fire, the
+   resulting action when it was observed (fold over the public methods) and
+   the variables observed (of the real routing fold, or the resulting action's
+   own encoding); the producers' values read back through the very objects
+   they hold when the session ends. *)
+Definition sess_txn_req := (list nat * option req_action * list var)%type.
+Definition sess_txn_resp := (list nat * option resp_action * list var)%type.
+Definition case_sess_req := (bool * list req_action * list sess_txn_req * list req_action)%type.
+Definition case_sess_resp := (bool * list resp_action * list sess_txn_resp * list resp_action)%type.
+
+Fixpoint list_eqb {A : Type} (eqb : A -> A -> bool) (a b : list A) : bool :=
+  match a, b with
+  | [], [] => true
+  | x :: a', y :: b' => eqb x y && list_eqb eqb a' b'
+  | _, _ => false
+  end.
+
+Definition txn_req_ok (t : sess_txn_req) (m : req_action) : bool :=
+  let '(_, oa, ov) := t in
+  match oa with Some a => req_eqb m a | None => true end && vars_eqb (encode_req m) ov.
+Definition txn_resp_ok (t : sess_txn_resp) (m : resp_action) : bool :=
+  let '(_, oa, ov) := t in
+  match oa with Some a => resp_eqb m a | None => true end && vars_eqb (encode_resp m) ov.
+
+Fixpoint all2 {A B : Type} (f : A -> B -> bool) (a : list A) (b : list B) : bool :=
+  match a, b with
+  | [], [] => true
+  | x :: a', y :: b' => f x y && all2 f a' b'
+  | _, _ => false
+  end.
+
+Definition run_sess_req (k : case_sess_req)
+  : option (list (req_action * list var) * list req_action) :=
+  let '(reuse, st, ts, fin) := k in
+  let ids := map (fun t => fst (fst t)) ts in
+  let '(rs, st') := if reuse : bool then session_req_ip st ids else session_req st ids in
+  if all2 txn_req_ok ts rs && list_eqb req_eqb st' fin then None
+  else Some (map (fun m => (m, encode_req m)) rs, st').
+
+Definition run_sess_resp (k : case_sess_resp)
+  : option (list (resp_action * list var) * list resp_action) :=
+  let '(_, st, ts, fin) := k in
+  let ids := map (fun t => fst (fst t)) ts in
+  let '(rs, st') := session_resp st ids in
+  if all2 txn_resp_ok ts rs && list_eqb resp_eqb st' fin then None
+  else Some (map (fun m => (m, encode_resp m)) rs, st').
